@@ -145,6 +145,10 @@ def cases(rng, tier):
             if rng.random() < 0.3:
                 lines += ["sim.step", "sim.snap", "sim.listingtext"]
         yield Case("views-wi", lines, None, {"mode": mode, "prog": prog})
+    # the listing of LONG programs (addresses with more than two hex digits, up to the last address of the instruction memory)
+    for n in (40, 300, 4096):
+        prog = [rand_tok(rng, rng.choice(["addi", "lui", "xori"]), 4 * k) for k in range(n)]
+        yield Case("views-wi", ["sim.new single 1 - -", "sim.prog " + " ".join(prog), "sim.listingtext"], None, {"mode": "single", "prog": prog[:3]})
     # listing fix-point
     for _ in range(60 if tier == "quick" else 1000):
         items, decls = rvasmgen.gen_abstract(rng, {"data": rng.random() < 0.5})
@@ -243,6 +247,9 @@ def _wi_oracle(c):
                 cur.append(f[2])
         elif f[0] == "sim.listingtext":
             rows = [] if o == "." else [r.split(",") for r in o.split(";")]
+            for r in rows:
+                if bytes.fromhex(r[1]).decode() != "0x%08X" % int(r[0]):
+                    return [Failure("oracle", PROP, f"the listing shows the address text {bytes.fromhex(r[1]).decode()!r} for address {r[0]}", "listing:address-text")]
             got = [(int(r[0]), bytes.fromhex(r[2]).decode() if r[2] != "." else "") for r in rows]
             want = [(4 * k, repr(implmod.make_instr(t))) for k, t in enumerate(cur)]
             if got != want:
